@@ -590,7 +590,7 @@ func c07r5(rc *core.RC) {
 			seq++
 			rc.Touch(fn)
 			count := call.Args[1]
-			key := fmt.Sprintf("%s/newArray#%d(%s)", fn, seq, types.ExprString(count))
+			key := fmt.Sprintf("%s/newArray#%d(%s)", fn, seq, core.Shape(p.Fset, info, fd, count))
 			path := core.PathTo(fd.Body, call)
 			if len(path) < 2 {
 				rc.Unknown(key, call.Pos(), "context of the allocation not recognised")
@@ -1128,7 +1128,17 @@ func c07r10(rc *core.RC) {
 			if !ok {
 				return true
 			}
-			sel, ok := core.Unparen(ifs.Cond).(*ast.SelectorExpr)
+			cond := core.Unparen(ifs.Cond)
+			branch := ifs.Body.List
+			if u, neg := cond.(*ast.UnaryExpr); neg && u.Op == token.NOT {
+				// `if !flag { … } else { nil store }`
+				cond = core.Unparen(u.X)
+				branch = nil
+				if e, ok := ifs.Else.(*ast.BlockStmt); ok {
+					branch = e.List
+				}
+			}
+			sel, ok := cond.(*ast.SelectorExpr)
 			if !ok {
 				return true
 			}
@@ -1137,7 +1147,7 @@ func c07r10(rc *core.RC) {
 			if !isVar || !v.IsField() {
 				return true
 			}
-			for _, st := range ifs.Body.List {
+			for _, st := range branch {
 				if isWordNilStore(info, st) {
 					gates = append(gates, gate{obj, ifs.Pos(), fn})
 					break
